@@ -635,6 +635,37 @@ def oracle(ctx):
             ctx.fail("oracle", "symeig-grad:davidson:inexact-forward-amplified", infoF,
                      {"davidson": gd, "exacteig": ref, "forward_residual_of_davidson": rd},
                      "gradient error at most 1000 x the forward residual (gap to the rest of the spectrum is 0.7 or 1)")
+    # ---- a BATCH in which one matrix has repeated kept eigenvalues and the other has not: every element gets the gradient it gets when
+    #      handled alone (round-6 seed C06/16: the switch of the degenerate treatment required every batch element to be degenerate;
+    #      the degenerate one then received gradients of order 1e15) ----
+    gB = torch.Generator().manual_seed(ctx.seed + 97)
+    for method in ("custom_exacteig", "exacteig"):
+        n, neig = 4, 3
+        A_deg, _ = planted(gB, n, torch.tensor([1.0, 1.0, 2.5, 4.0], dtype=DT), (), DT, False)
+        A_non, _ = planted(gB, n, torch.tensor([0.5, 1.5, 2.5, 4.0], dtype=DT), (), DT, False)
+        Cb = herm(torch.randn(n, n, dtype=DT, generator=gB))
+        Ad = herm(torch.randn(n, n, dtype=DT, generator=gB))
+
+        def gradof(A0s):
+            th = torch.zeros((), dtype=DT, requires_grad=True)
+            Ab = torch.stack([a + th * Ad for a in A0s]) if len(A0s) > 1 else A0s[0] + th * Ad
+            with warnings.catch_warnings():
+                warnings.simplefilter("ignore")
+                e_, X_ = symeig(xt.LinearOperator.m(Ab, is_hermitian=True), neig, "lowest", method=method)
+            P_ = X_ @ X_.transpose(-2, -1)
+            per = (e_.sum(-1) + (Cb * P_).sum((-2, -1)))
+            per = per.reshape(-1)
+            return [float(torch.autograd.grad(per[i], th, retain_graph=True)[0]) for i in range(per.numel())]
+        ctx.count(("batch-mixed-degeneracy", method), nontrivial=True)
+        try:
+            both = gradof([A_deg, A_non])
+            alone = gradof([A_deg]) + gradof([A_non])
+        except Exception as ex:
+            ctx.fail("oracle", "symeig-grad:batch-mixed-degeneracy:exception", {"method": method}, repr(ex)[:300], "gradients")
+            continue
+        if not all(abs(u - w) <= 1e-7 * (1 + abs(w)) for u, w in zip(both, alone)):
+            ctx.fail("oracle", "symeig-grad:batch-mixed-degeneracy:%s" % method, {"batch": "[spectrum 1,1,2.5,4 ; spectrum 0.5,1.5,2.5,4]", "neig": neig},
+                     {"batched": both}, {"each_alone": alone})
     # ---- svd ----
     for rep in range(ctx.n(20, 150)):
         g = gen(rng)
